@@ -298,9 +298,11 @@ def analyse(obs: Obs, prog):
             derived=der, expected="idx+1 < length ? previous final carry : carry returned by the edited (last) slice", where=w)
     # stacked outputs
     ys = mk_proj(f.get("retval"), 1)
-    oky = is_t(ys, "treemap") and is_t(ys[1], "where") and ys[1][1] == ("cmp", "==", ("call", G("jax.numpy.arange"), (("attr", P("trace"), "scan_length"),), ()), IDX) \
-        and ys[1][2] == ("leaf", dcall("tree_primal", mk_proj(mk_proj(E1, 2), 1))) and ys[1][3] == ("leaf", mk_proj(retval_of(P("trace")), 1))
-    obs.add({"C01", "C12"}, "IDX-ALIGN", "Scan.edit_index/stacked-out", oky, derived=ys, expected="where(arange(length) == idx, new slice output, old outputs)", where=w)
+    # ROW idx of the stacked outputs: the leading axis, whatever the shape of one output.  `where(arange(n) == idx, new, old)` broadcasts its (n,) mask against
+    # the LAST axis of an (n, *s) output - right for scalar outputs only (vector outputs: a crash, or a silently overwritten column when s == (n,))
+    new_out, old_out = ("leaf", dcall("tree_primal", mk_proj(mk_proj(E1, 2), 1))), ("leaf", mk_proj(retval_of(P("trace")), 1))
+    oky = is_t(ys, "treemap") and ys[1] == ("atset", old_out, IDX, new_out)
+    obs.add({"C01", "C12"}, "IDX-ALIGN", "Scan.edit_index/stacked-out", oky, derived=ys, expected="old outputs .at[idx].set(new slice output) - the leading axis is the iteration axis", where=w)
     # inner trace write-back at idx and idx+1 (guarded)
     inn = f.get("inner")
     def mut(base, pos, val):
